@@ -13,7 +13,13 @@ ExtOps == <<"create", "create", "update", "td", "td", "destroy", "destroy", "add
 FreeOps == ExtOps \o <<"arm", "release", "release", "failnext", "wait", "holdw", "holdw">>
 HeldOps == <<"stepw", "stepw", "stepw", "stepw", "stepw", "freew">> \o ExtOps
 Init == hist = <<>> /\ done = FALSE /\ held = FALSE
-Step == \E op \in {IF held THEN HeldOps[RandomElement(1..Len(HeldOps))] ELSE FreeOps[RandomElement(1..Len(FreeOps))]},
+(* "skipmode" (at most once, in the last third of a history): from then on the transform function asks to skip the reconcile *)
+(* (SkipReconcileTag): outputs that exist stay as they are, no new output appears, clean-up of torn-down inputs goes on       *)
+LateOps == FreeOps \o <<"skipmode">>
+Skipped == \E i \in 1..Len(hist) : hist[i].c = "skipmode"
+Step == \E op \in {IF held THEN HeldOps[RandomElement(1..Len(HeldOps))]
+                   ELSE IF 3 * Len(hist) > 2 * GenDepth /\ ~Skipped THEN LateOps[RandomElement(1..Len(LateOps))]
+                   ELSE FreeOps[RandomElement(1..Len(FreeOps))]},
            id \in {RandomElement({1, 1, 2})}, v \in {RandomElement({1, 2, 3})} :
            /\ hist' = Append(hist, [c |-> op, id |-> id, v |-> v])
            /\ held' = IF op = "holdw" THEN TRUE ELSE IF op = "freew" THEN FALSE ELSE held
